@@ -183,3 +183,7 @@ func vpH_C12_subfilter() {
 	vpCover(n == 3 && !panicked && len(ps.topics) > 0, "three entries, one accepted")
 	vpCover(n == 3 && limited && len(ps.topics) == 0, "too many subscriptions for the limit filter")
 }
+
+// stream_churn: a hostile peer that stays connected but keeps resetting the stream we open to it, with an arbitrary
+// reconnect-backoff history, and then keeps sending RPCs: no closed queue stays registered, no reply panics (shared with C13).
+func vpH_C12_stream_churn() { vpH_C13_stream_churn() }
